@@ -57,6 +57,14 @@ class Pair(nn.Module):
     return jnp.stack([self.a(), self.b()])
 
 
+class DictHolder(nn.Module):
+  """Submodules arriving in a dict-valued dataclass attribute."""
+  subs: dict
+
+  def __call__(self):
+    return jnp.stack([self.subs[k]() for k in sorted(self.subs)])
+
+
 class PairTop(nn.Module):
   pattern: str = 'two-depths'
 
@@ -68,6 +76,8 @@ class PairTop(nn.Module):
       self.mid = Pair(a=shared, b=shared)
     elif self.pattern == 'reversed':
       self.mid = Pair(a=Holder(inner=shared), b=shared)
+    elif self.pattern == 'dict-attr':
+      self.mid = DictHolder(subs={'x': Leaf(), 'y': Holder(inner=Leaf())})
     else:
       self.mid = Pair(a=Leaf(), b=Holder(inner=Leaf()))
 
